@@ -276,6 +276,15 @@ def run(ctx):
     for h in samples[:4]:
         ctx.sample({'history': [[e['e'], e['p'], e['op'], e['res'], e['a'], e['v']] for e in h['ev']][:40]})
     ctx.cov['histories_validated'] = total
+    missing = sum(s_.get('histories', 0) - s_.get('histories_printed', 0) for s_ in all_stats if 'histories' in s_)
+    ctx.cov['histories_not_sent_to_tlc'] = missing
+    if missing:
+        ctx.notes.append('%d distinct histories of the two-producer exploration were checked by the driver P-monitor only '
+                         '(quick tier sends the first 1500 of that run to TLC; thorough sends all)' % missing)
+    ctx.notes.append('T1 edge replay covers the single-producer I-graphs (capacity 1, 2, 4); the two-producer configuration is bound '
+                     'by exhaustive exploration of the real FewToFewBiQueue and P-layer validation of its histories')
+    ctx.notes.append('NotifyJustified (fixed linearization point = the fetch_add) is checked for one producer; with two producers '
+                     'the linearization point of a push may lie later, which TLC finds per history in Trace_SpscQueue')
     ctx.cov['exhaustive'] = not any(s.get('truncated') for s in all_stats)
     ctx.cov['explorer_runs'] = all_stats
     ctx.cov['rule'] = (
